@@ -255,9 +255,12 @@ func (c *rapidContext) watchEvents(events <-chan supvmodel.Event) {
 		// At the moment we only get termination events.
 		// When their are other event types then we would need to be selective,
 		// about what we send to handleShutdownEvent().
-		c.shutdownContext.handleProcessExit(*termination)
-		verifAt("watch.exitHandled")
+		// Cancel the flows before announcing the exit: closing the exited channel lets a
+		// shutdown or reset that waits for this process run to completion and re-arm the flows
+		// for the next generation, which a cancellation arriving after that would break.
 		c.registrationService.CancelFlows(err)
+		verifAt("watch.exitHandled")
+		c.shutdownContext.handleProcessExit(*termination)
 	}
 }
 
